@@ -276,16 +276,18 @@ impl<T> OneShotShared<T> {
       crate::verif::point("oneshot", 0);
       if current_state == STATE_EMPTY && self.sender_count.load(Ordering::Acquire) == 0 {
         // Attempt to transition to CLOSED if not already done by last sender drop
-        self
-          .state
-          .compare_exchange(
-            STATE_EMPTY,
-            STATE_CLOSED,
-            Ordering::Relaxed,
-            Ordering::Relaxed,
-          )
-          .ok();
-        Err(TryRecvError::Disconnected)
+        match self.state.compare_exchange(
+          STATE_EMPTY,
+          STATE_CLOSED,
+          Ordering::AcqRel,
+          Ordering::Acquire,
+        ) {
+          // `current_state` was read before the last sender sent and left: the state
+          // moved on (WRITING / SENT), so a value may be there - look again instead of
+          // reporting Disconnected over a successfully sent value.
+          Err(now) if now == STATE_WRITING || now == STATE_SENT => self.try_recv(),
+          _ => Err(TryRecvError::Disconnected),
+        }
       } else {
         Err(TryRecvError::Empty) // Not ready yet, or senders still active / writing
       }
@@ -320,16 +322,16 @@ impl<T> OneShotShared<T> {
           #[cfg(excsn_fibre_verif)]
           crate::verif::point("oneshot", 0);
           if current_state == STATE_EMPTY && self.sender_count.load(Ordering::Acquire) == 0 {
-            self
-              .state
-              .compare_exchange(
-                STATE_EMPTY,
-                STATE_CLOSED,
-                Ordering::Relaxed,
-                Ordering::Relaxed,
-              )
-              .ok();
-            return Poll::Ready(Err(RecvError::Disconnected));
+            match self.state.compare_exchange(
+              STATE_EMPTY,
+              STATE_CLOSED,
+              Ordering::AcqRel,
+              Ordering::Acquire,
+            ) {
+              // the last sender sent and left after `current_state` was read: look again
+              Err(now) if now == STATE_WRITING || now == STATE_SENT => continue,
+              _ => return Poll::Ready(Err(RecvError::Disconnected)),
+            }
           }
 
           self.receiver_waker.register(cx.waker());
